@@ -33,14 +33,17 @@ class C11(Check):
         names = [("ra", "X"), ("ra", "Y"), ("rb", "P"), ("rb", "Q")]
         rng.shuffle(names)
         names = names[: rng.randint(1, 3)]
-        mports = [6144, 6145, 7000, 7167]
-        sports = [256, 300, 383]
+        mports = [0, 0, 6144, 7167, 8191]
+        sports = [0, 0, 256, 511]
         used = set()
         for (rn, short) in names:
-            nver = rng.randint(1, 3)
+            nver = rng.randint(1, 4)
             kind0 = rng.random() < 0.3
-            base_port = rng.choice([None, None, "p"])
-            majors = [rng.choice([0, 0, 1, 1, 2]) for _ in range(nver)]
+            base_port = rng.choice([None, "p", "p"])
+            if rng.random() < 0.5:
+                majors = [rng.choice([0, 1, 1, 2])] * nver  # several minors under one major
+            else:
+                majors = [rng.choice([0, 0, 1, 1, 2]) for _ in range(nver)]
             base_sealed = rng.random() < 0.5
             base_n = rng.randint(0, 3)
             base_ext = 8 * rng.randint(base_n, base_n + 4)
@@ -71,9 +74,29 @@ class C11(Check):
                 d = {"name": "%s.%s" % (rn, short), "ver": [M, m], "port": port, "ext": "dsdl", "dep": False, "secs": secs}
                 cands = [i for i, r0 in enumerate(roots) if r0["name"] == rn]
                 roots[rng.choice(cands)]["defs"].append(d)
+        if rng.random() < 0.15:
+            # a "gap" family: three minors under one major whose port-ID is present / absent / present. Every adjacent pair
+            # in (newest-first) order is fine or not depending on direction, and the offending pair (oldest, middle) is not
+            # adjacent in all list orders - the rule has to be checked for every pair, not for neighbours
+            M = rng.choice([0, 1, 3])
+            ms = sorted(rng.sample(range(0, 9), 3))
+            if (M, ms[0]) == (0, 0):
+                ms[0] = 1 if 1 not in ms else ms[0]
+                ms = sorted(set(ms))
+            if len(ms) == 3 and (M, ms[0]) != (0, 0):
+                svc = rng.random() < 0.3
+                P = rng.choice(sports if svc else mports)
+                pattern = rng.choice([[P, None, P], [P, None, P], [None, P, None], [P, P, None], [None, None, P]])
+                host = rng.choice([i for i, r0 in enumerate(roots) if r0["name"] == "ra"])
+                for m, port in zip(ms, pattern):
+                    secs = [body(rng, 1, True, None)] + ([body(rng, 0, True, None)] if svc else [])
+                    roots[host]["defs"].append({"name": "ra.Gap", "ver": [M, m], "port": port, "ext": "dsdl", "dep": False, "secs": secs})
+                if not svc:
+                    roots[host]["defs"].append({"name": "ra.RefGap", "ver": [1, 0], "port": None, "ext": "dsdl", "dep": False,
+                                                "secs": [{"union": False, "hdr": None, "seal": "sealed", "items": [["f", ["ref", "ra.Gap", M, ms[0]], "g"]]}]})
         # referrers: put some lookup definitions into the closure of the other root
         alld = [(ri, d) for ri, r0 in enumerate(roots) for d in r0["defs"]]
-        for i in range(rng.randint(0, 2)):
+        for i in range(rng.randint(0, 3)):
             msgs = [(ri, d) for ri, d in alld if len(d["secs"]) == 1]
             if not msgs:
                 break
@@ -105,8 +128,22 @@ class C11(Check):
                 look = [x for x in range(nroots) if x != ri and rng.random() < 0.85]
                 reads.append(W.rn_op(rng, uni, ri, look, allow_unreg=True))
         keys = list(uni.defs)
-        for _ in range(2):
+        for n in range(3):
             targets = rng.sample(keys, rng.randint(1, min(4, len(keys))))
+            if n == 2:
+                # referrers and the newest minor of each family as targets: older minors are reached transitively only
+                newest = {}
+                for k in keys:
+                    d0 = uni.defs[k]
+                    fam = (d0["name"], d0["ver"][0])
+                    if fam not in newest or uni.defs[newest[fam]]["ver"][1] < d0["ver"][1]:
+                        newest[fam] = k
+                targets = sorted(set(newest.values()) | {k for k in keys if ".Ref" in k})
+                gap = sorted((k for k in keys if k.startswith("ra.Gap.")), key=lambda k: uni.defs[k]["ver"][1])
+                if gap and rng.random() < 0.7:
+                    targets = gap[1:] + [k for k in keys if k.startswith("ra.RefGap.")]
+                else:
+                    targets = rng.sample(targets, rng.randint(1, len(targets)))
             troots = {uni.root_of[k] for k in targets}
             op = W.rf_op(rng, uni, targets, [x for x in range(nroots) if x not in troots], allow_unreg=True)
             for a in op["roots"]:
